@@ -146,3 +146,6 @@ def check(ctx):
     c07.r_value_to_structural(ctx, 'R08.6', only={'List', 'Array', 'Option.None', 'Option.Some'})
     c07.r_shared_callee(ctx)
     c07.r_layout_tables(ctx, 'R08.7', c07.LAYOUT_LIST, 10)
+    from .. import guards as G
+    G.compare(ctx, 'R08.8', ['<ast::CallName as ast::AbstractSyntaxTree>::analyze'], G.load_table(), 'call-name analysis (fold arm: signature f(element, accumulator) -> accumulator)', G.GUARD_FIELDS, rowsel=lambda path, r: any(c.endswith('=Fold') for c in r['conds'][:3]))
+    ctx.rule('R08.8', 'fold arm of the call-name analysis: the folded function has two parameters and returns the type of its second (the accumulator)')
